@@ -135,6 +135,8 @@ def install(w):
             return z3.BoolVal(False) if k not in (object,) else z3.BoolVal(True)
         if isinstance(v, VConst):
             return z3.BoolVal(isinstance(v.obj, k))
+        if isinstance(v, VOpaque) and not hasattr(v, "seq"):
+            return z3.Bool(it.namer.fresh("isinst"))   # nothing is known about the value
         r = w.isinstance_ext(it, v, k, node)
         if r is not None:
             return r
@@ -279,6 +281,11 @@ def install(w):
         except _Raise as r:
             if issubclass(r.exc.cls, AttributeError):
                 return args[2]
+            raise
+        except Unsupported:
+            r = w.getattr_dyn(it, obj, name, args[2], node)
+            if r is not None:
+                return r
             raise
     B["bi:getattr"] = b_getattr
 
